@@ -599,13 +599,12 @@ def hilberthuang(infr, inam, freq_edges, mode='energy', return_sparse=False):
 
     # Create sparse co-ordinates
     yinds = np.digitize(infr, freq_edges) - 1
-    yinds[yinds < 0] = 0
     xinds = np.tile(np.arange(yinds.shape[0]), (yinds.shape[1], 1)).T
 
     coo_data = (inam.reshape(-1), (yinds.reshape(-1), xinds.reshape(-1)))
 
     # Remove values outside our bins
-    goods = np.any(np.c_[coo_data[1][0] < len(freq_edges) - 1, (coo_data[1][0] == 0)], axis=1)
+    goods = np.logical_and(coo_data[1][0] >= 0, coo_data[1][0] < len(freq_edges) - 1)
     coo_data = (coo_data[0][goods], (coo_data[1][0][goods], coo_data[1][1][goods]))
 
     # Create sparse matrix
